@@ -1010,6 +1010,8 @@ def m_into(I, fn, st, t, args, depth):
                     specific.append(f)
             elif pt.kind() == "param":
                 generic.append(f)
+            elif not is_e(args[0]):
+                specific.append(f)  # scalar parameter (f64, &str ..) and a scalar / symbolic argument
         chosen = specific or ([] if any(is_e(args[0], f.local_ty(1).peel_refs().adt() or "") for f in cands) else generic)
         if len(chosen) == 1:
             for o in I.run(chosen[0], list(args), depth + 1):
